@@ -505,6 +505,74 @@ def tr_adevice(repo):
   return out
 
 
+def tr_demand(tree):
+  """DemandFunction: inner_function(np.max(x)); deriv / hess put the inner polynomial's first / second derivative at x[argmax] into a zero
+  vector at index argmax (hess: np.diag of it)."""
+  def un(e):
+    return ast.unparse(e)
+  try:
+    node = next(c for c in tree.body if isinstance(c, ast.ClassDef) and c.name == 'DemandFunction')
+  except StopIteration:
+    raise Unsupported('?:Module:class DemandFunction not found')
+  meths = {n.name: n for n in node.body if isinstance(n, ast.FunctionDef)}
+  init = meths.get('__init__') or U(node, 'constructor')
+  if 'self.inner_function = inner_function' not in [un(x) for x in init.body]:
+    U(init, 'constructor')
+
+  def code(m):
+    return [x for x in m.body if not (isinstance(x, ast.Expr) and isinstance(x.value, ast.Constant))]
+
+  def poly(e):
+    """self.inner_function / .deriv() / .deriv(k) -> coefficient list term"""
+    if un(e) == 'self.inner_function':
+      return 'inner_function'
+    if isinstance(e, ast.Call) and isinstance(e.func, ast.Attribute) and e.func.attr == 'deriv' and not e.keywords:
+      base = poly(e.func.value)
+      k = 1
+      if e.args:
+        if len(e.args) != 1 or not (isinstance(e.args[0], ast.Constant) and isinstance(e.args[0].value, int) and 0 <= e.args[0].value <= 4):
+          U(e, 'derivative order')
+        k = e.args[0].value
+      for _ in range(k):
+        base = '(pderiv %s)' % base
+      return base
+    U(e, 'polynomial %s' % un(e))
+
+  def scalar(e, env):
+    if isinstance(e, ast.Call) and un(e.func) == 'np.max' and len(e.args) == 1 and un(e.args[0]) == 'x':
+      return '(vmax x)'
+    if isinstance(e, ast.Subscript) and un(e.value) == 'x' and isinstance(e.slice, ast.Name) and env.get(e.slice.id) == 'N':
+      return '(nth %s x n0)' % e.slice.id
+    U(e, 'scalar %s' % un(e))
+
+  def apply(e, env):
+    if isinstance(e, ast.Call) and len(e.args) == 1 and not e.keywords:
+      return '(horner %s %s)' % (poly(e.func), scalar(e.args[0], env))
+    U(e, 'application %s' % un(e))
+  out = {}
+  b = code(meths.get('__call__') or U(node, '__call__'))
+  if len(b) != 1 or not isinstance(b[0], ast.Return):
+    U(node, '__call__ body')
+  out['call'] = apply(b[0].value, {})
+  for name in ('deriv', 'hess'):
+    b = code(meths.get(name) or U(node, name))
+    if len(b) != 4 or un(b[0]) != '_x = np.zeros(np.array(x).shape)' or un(b[1]) != 'i = np.argmax(x)':
+      U(node, '%s prologue' % name)
+    a = b[2]
+    if not (isinstance(a, ast.Assign) and un(a.targets[0]) == '_x[i]'):
+      U(a, 'assignment')
+    v = apply(a.value, {'i': 'N'})
+    vec = '(let _x := zeros (length x) in let i := argmax x in upd _x i %s)' % v
+    r = un(b[3])
+    if name == 'deriv' and r == 'return _x':
+      out[name] = vec
+    elif name == 'hess' and r == 'return np.diag(_x)':
+      out[name] = '(diag %s)' % vec
+    else:
+      U(b[3], 'result')
+  return out
+
+
 def tr_cdevice2(repo):
   """CDevice2._cost_fn / cost / deriv (device_kit/cdevice2.py): the preference object is InnerSumFunction(HLQuadraticCost(p_l, p_h, c[0], c[1]))
   for one cumulative range and RangesFunction([((c[2], c[3]), InnerSumFunction(HLQuadraticCost(p_l, p_h, c[0], c[1]))) for c in cbounds])
@@ -645,6 +713,26 @@ def gen_functions(repo):
       out.append('(* functions.py: RangesFunction.%s NOT TRANSLATED (%s): alias of the hand-written model, tie falls back to the correspondence *)' % ({'call': '__call__'}.get(mn, mn), err))
       body = RF[mn][1]
     out.append('Definition RangesFunction_%s (ranges : list (nat * nat)) (functions : list (fobj A)) (x : list A) : %s :=\n  %s.\n' % (mn, RF[mn][0], body))
+  # DemandFunction
+  DM = {'call': ('A', 'horner inner_function (vmax x)'), 'deriv': ('list A', 'upd (zeros (length x)) (argmax x) (horner (pderiv inner_function) (vmax x))'),
+        'hess': ('list (list A)', 'diag (upd (zeros (length x)) (argmax x) (horner (pderiv (pderiv inner_function)) (vmax x)))')}
+  try:
+    if tree is None:
+      raise Unsupported('?:Module:cannot parse functions.py')
+    dm = tr_demand(tree)
+    err = None
+  except Unsupported as e:
+    dm, err = {}, str(e).replace('*)', '* )')
+  for mn in ('call', 'deriv', 'hess'):
+    if mn in dm:
+      translated.append('DemandFunction_%s' % mn)
+      out.append('(* functions.py: DemandFunction.%s *)' % {'call': '__call__'}.get(mn, mn))
+      body = dm[mn]
+    else:
+      untranslated.append('DemandFunction_%s' % mn)
+      out.append('(* functions.py: DemandFunction.%s NOT TRANSLATED (%s): alias of the hand-written model, tie falls back to the correspondence *)' % ({'call': '__call__'}.get(mn, mn), err))
+      body = DM[mn][1]
+    out.append('Definition DemandFunction_%s (inner_function : list A) (x : list A) : %s :=\n  %s.\n' % (mn, DM[mn][0], body))
   # CDevice2 (device_kit/cdevice2.py): a preference object assembled from the classes above
   out.append('(* an object is its class: the methods of an InnerSumFunction / a RangesFunction object are the generated methods of the class *)')
   out.append('Definition innersum_fobj (o : sfobj A) : fobj A :=\n  {| f_call := InnerSumFunction_call o; f_deriv := InnerSumFunction_deriv o; f_hess := InnerSumFunction_hess o |}.')
